@@ -222,6 +222,19 @@ fn table() -> Vec<W> {
     w!("time.nanosleep", "time/sleep.rs:nanosleep", "nanosleep", "unit", move || u(rusl::time::nanosleep(ts1, None)));
     let ts2: &'static mut TimeSpec = leak(TimeSpec::new(0, 1));
     w!("time.nanosleep_same_ptr", "time/sleep.rs:nanosleep_same_ptr", "nanosleep", "unit", move || u(rusl::time::nanosleep_same_ptr(ts2)));
+    // --- the other arm of Option / bool arguments (same site, other marshalling path)
+    w!("select.epoll_create.nocloexec", "select/epoll.rs:epoll_create", "epoll_create1", "i32", move || v(rusl::select::epoll_create(false).map(|f| s32(f.value()))));
+    let rem: &'static mut TimeSpec = leak(TimeSpec::new_zeroed());
+    let rem_ptr = core::ptr::from_mut::<TimeSpec>(rem) as usize;
+    w!("time.nanosleep.rem", "time/sleep.rs:nanosleep", "nanosleep", "unit", move || u(rusl::time::nanosleep(ts1, Some(rem_ptr as *mut TimeSpec))));
+    w!("futex.futex_wait.timeout", "futex.rs:futex_wait", "futex", "unit", move || u(rusl::futex::futex_wait(fut, 1, FutexFlags::PRIVATE, Some(TimeSpec::new(0, 1000)))));
+    let pfds2: &'static mut [PollFd; 1] = leak([PollFd::new(fd, PollEvents::POLLIN)]);
+    let sigset: &'static rusl::platform::SigSetT = leak(rusl::platform::SigSetT::default());
+    w!("select.ppoll.sigset", "select/poll.rs:ppoll", "ppoll", "usize", move || v(rusl::select::ppoll(&mut pfds2[..], None, Some(sigset)).map(|x| x as u64)));
+    w!("unistd.mmap.fixed_fd", "unistd/mmap.rs:mmap", "mmap", "usize", move || v(unsafe {
+        rusl::unistd::mmap(Some(0x10000), NonZeroUsize::new(4096).unwrap(), MemoryProtection::PROT_READ, MapRequiredFlag::MapShared, MapAdditionalFlags::empty(), Some(fd), 4096)
+    }.map(|x| x as u64)));
+    w!("unistd.wait_pid.nohang", "process/wait.rs:wait_pid", "wait4", "i32", move || v(rusl::process::wait_pid(1, WaitPidFlags::WNOHANG).map(|r| s32(r.pid))));
     w!("time.clock_get_real_time", "time/clock_get_time.rs:clock_get_real_time", "clock_gettime", "void", move || { let _ = rusl::time::clock_get_real_time(); R::None });
     w!("time.clock_get_monotonic_time", "time/clock_get_time.rs:clock_get_monotonic_time", "clock_gettime", "void", move || { let _ = rusl::time::clock_get_monotonic_time(); R::None });
     w!("time.clock_get_time", "time/clock_get_time.rs:clock_get_time", "clock_gettime", "unit", move || u(rusl::time::clock_get_time(ClockId::CLOCK_MONOTONIC)));
